@@ -585,6 +585,24 @@ fn judge_secp(rep: &mut Report, cs: &SecpCase) -> Option<[u8; 64]> {
         ms.copy_from_slice(&msig[32..]);
         ms[0] &= 0x7f;
         let in_range = !b::is_zero(&mr) && mr < n && !b::is_zero(&ms) && (ms <= half || (c == Curve::R1 && ms < n));
+        if in_range && c == Curve::R1 {
+            // which key a secp256r1 signature belongs to is decided by (r, s, parity) alone:
+            // the p256 crate's recovery on the same triple is the reference (verification
+            // cannot tell the two candidate keys of a malleated pair apart)
+            let mut raw = msig;
+            raw[32] &= 0x7f;
+            let v = msig[32] & 0x80 != 0;
+            if let (Ok(sg), Some(id)) = (p256::ecdsa::Signature::from_slice(&raw), k256::ecdsa::RecoveryId::from_byte(v as u8)) {
+                if let Ok(vk) = p256::ecdsa::VerifyingKey::recover_from_prehash(&cs.msg, &sg, id) {
+                    let pt = vk.to_encoded_point(false);
+                    rep.eval();
+                    rep.count("secp256r1_recovered_key_compared_with_reference_recovery");
+                    if pt.as_bytes().len() == 65 && pt.as_bytes()[1..] != k[..] {
+                        bad!("recover", format!("recovered key differs from the reference recovery of the same (r, s, parity)|{label}"), format!("sig {} msg {}: library {} reference {}", hx(msig), hx(cs.msg), hx(k), hx(&pt.as_bytes()[1..])))
+                    }
+                }
+            }
+        }
         if in_range {
             rep.eval();
             match verify_with(c, &msig, k, &cs.msg) {
